@@ -21,6 +21,8 @@ def main(argv) -> int:
             args = [x for x in args if x != repo_path]
         elif a.startswith("--repo="):
             repo_path = a.split("=", 1)[1]
+    if args and args[0] == "explain":
+        return explain(args[1:] if len(args) > 1 else [])
     if not args or args[0] not in PROPS:
         print("usage: python -m cminx_sa <C01..C20> [quick|thorough] [--repo PATH]", file=sys.stderr)
         return 2
@@ -45,7 +47,85 @@ def main(argv) -> int:
                 traceback.format_exc().strip().splitlines()[-3].strip()
         if os.environ.get("CMINX_SA_DEBUG"):
             traceback.print_exc()
+    if error is None and tier == "thorough" and not os.environ.get("CMINX_SA_NO_CONTROLS") \
+            and not any(i.verdict == "violation" for i in rep.instances):
+        try:
+            error = run_controls(rep, prop, repo_path)
+        except Exception as e:  # the controls must never turn into a false alarm
+            rep.extra_cov["controls"] = {"error": f"{type(e).__name__}: {e}"}
     return finish(rep, seed, error)
+
+
+def run_controls(rep: Report, prop: str, repo_path: str):
+    """Thorough tier: positive and negative controls of the checker itself.  Every breaking variant registered for this
+    property (hand-written edits and the regressions seeded by independent agents) is applied to a scratch copy of the
+    *current* tree and must make the quick check fire; every behaviour-preserving refactoring must leave it silent.
+    Variants whose edit no longer applies to the current tree are skipped.  A failing control means the checker is broken
+    (exit 2), never that the property is violated."""
+    import concurrent.futures as cf
+    here = os.path.dirname(os.path.dirname(os.path.abspath(__file__)))
+    sys.path.insert(0, os.path.join(here, "selftest"))
+    os.environ["CMINX_SA_REPO"] = repo_path
+    os.environ["CMINX_SA_NO_CONTROLS"] = "1"
+    import run as st_run          # selftest/run.py
+    st_run.REPO = repo_path
+    mine = []
+    for v in st_run.VARIANTS:
+        if prop in v["props"]:
+            w = dict(v)
+            w["props"] = [prop]
+            w["tier"] = "quick"
+            if v["kind"] == "break" and len(v["props"]) > 1:
+                # rules listed for other properties do not apply here
+                w["rules"] = [r for r in (v.get("rules") or []) if r.startswith(prop + "-")] or None
+            mine.append(w)
+    stats = {"breaking": 0, "detected": 0, "benign": 0, "silent": 0, "skipped": 0, "failed": []}
+    with cf.ThreadPoolExecutor(max_workers=int(os.environ.get("CMINX_SA_JOBS", "16"))) as ex:
+        for v, status, msg, dt in ex.map(st_run.run_variant, mine):
+            if status == "EDIT-FAILED":
+                stats["skipped"] += 1
+                continue
+            if v["kind"] == "break":
+                stats["breaking"] += 1
+                if status == "ok":
+                    stats["detected"] += 1
+                else:
+                    stats["failed"].append(f"{v['id']}: {status} {msg[:120]}")
+            else:
+                stats["benign"] += 1
+                if status == "ok":
+                    stats["silent"] += 1
+                else:
+                    stats["failed"].append(f"{v['id']}: {status} {msg[:120]}")
+    rep.extra_cov["controls"] = stats
+    rep.ok(f"{prop}-CTL", "selftest", f"checker controls: {stats['detected']}/{stats['breaking']} seeded/edited regressions detected, "
+                                       f"{stats['silent']}/{stats['benign']} behaviour-preserving refactorings silent, {stats['skipped']} skipped")
+    rep.rule(f"{prop}-CTL", "controls of the checker on scratch copies of the current tree (thorough tier only)")
+    if stats["failed"]:
+        return "checker control failed (the checker, not the property): " + " ; ".join(stats["failed"][:3])
+    return None
+
+
+def explain(paths) -> int:
+    """./check explain <replay.json>: print the recorded construct and re-run the property's check."""
+    import json
+    import subprocess
+    if not paths:
+        print("usage: ./check explain <evidence/replay/Cxx-n.json>", file=sys.stderr)
+        return 2
+    rc = 0
+    for p in paths:
+        try:
+            d = json.load(open(p))
+        except Exception as e:
+            print(f"cannot read {p}: {e}", file=sys.stderr)
+            return 2
+        print(json.dumps(d, indent=1))
+        here = os.path.dirname(os.path.dirname(os.path.abspath(__file__)))
+        r = subprocess.run([sys.executable, "-B", "-m", "cminx_sa", d.get("property", ""), d.get("tier", "quick"), "--repo",
+                            d.get("repo", "/repo")], cwd=here, env=dict(os.environ, CMINX_SA_NO_CONTROLS="1"))
+        rc = max(rc, r.returncode)
+    return rc
 
 
 if __name__ == "__main__":
